@@ -350,7 +350,7 @@ def run(ctx):
     with worlds.world("posc") as db:
         cats = sorted(db.IterCategories())
         units = sorted(db.unit_to_unit_info)
-        graph, _t = algebra.explore(db, 2)
+        graph, _t = algebra.explore(db, 2, reciprocals=True)
     _G["states"] = graph
     tasks = [("construct", c) for c in chunks(cats, 32)]
     tasks += [("convert", (c, ctx.thorough)) for c in chunks(units, 64)]
